@@ -189,7 +189,7 @@ func runC13ForkLimit(r *mon.Run, stream uint64) {
 		return // b was not sufficiently heavier: no verdict
 	}
 	// from points on branch A: its tip (path la+lb > 144) and a node near the fork
-	near := pa[144-lb-1-rng.IntN(20)] // reverts + lb applies <= 144
+	near := pa[min(len(pa)-1, 144-lb-1)-rng.IntN(20)] // reverts + lb applies <= 144
 	for _, from := range []*chainlab.Node{a, near} {
 		set := buildV2Set(t, from, rng)
 		if len(set) == 0 {
